@@ -45,6 +45,8 @@ class DgramHarness:
         netp = dict(plan.get('net') or {})
         netp['ifaces'] = {'h' + name: {'eth0': MACS[name]} for name in MACS}
         self.net = Net(self.wld, netp)
+        self.frame_log = []
+        self.net.frame_log = self.frame_log
         self.bus = {}
         self.agent = {}
         self.node = {}
